@@ -77,6 +77,11 @@ def generate(rng, i, force=None):
     mem = chain.contracts
     ltd = [to_dt(f.last_trading_date) for f in mem]
     exp = [to_dt(f.expiry) for f in mem]
+    # the scenario is laid out on the calendar order of the members (data); events refer to members by their
+    # position in the library's list, whatever order that list is in
+    lib_idx = sorted(range(len(mem)), key=lambda j: ltd[j])
+    ltd = [ltd[j] for j in lib_idx]
+    exp = [exp[j] for j in lib_idx]
     usable = len(mem) - offset        # lead index must stay < len(mem)
     if usable < 2:
         return generate(rng, i + 1, force)
@@ -133,7 +138,7 @@ def generate(rng, i, force=None):
             far = li is not None and j >= li + offset + 2
             if far and rng.random() < 0.2:
                 continue            # F1: quote gap for a far member
-            events.append({"t": core.iso(g), "type": "nbbo", "c": [0, j], "bid": px[j] * (1 - spread / 2), "ask": px[j] * (1 + spread / 2), "id": len(events)})
+            events.append({"t": core.iso(g), "type": "nbbo", "c": [0, lib_idx[j]], "bid": px[j] * (1 - spread / 2), "ask": px[j] * (1 + spread / 2), "id": len(events)})
         prev_traded = traded
         if two:
             etf_px *= 1 + rng.uniform(-0.01, 0.01)
@@ -150,7 +155,7 @@ def generate(rng, i, force=None):
                 t2 = g + (lat if rng.random() < 0.5 else lat / 2)
                 for j in range(len(mem)):
                     if t2 < exp[j]:
-                        events.append({"t": core.iso(t2), "type": "nbbo", "c": [0, j], "bid": px[j] * (1 - spread / 2), "ask": px[j] * (1 + spread / 2), "id": len(events)})
+                        events.append({"t": core.iso(t2), "type": "nbbo", "c": [0, lib_idx[j]], "bid": px[j] * (1 - spread / 2), "ask": px[j] * (1 + spread / 2), "id": len(events)})
     env = {
         "contracts": specs, "grid": [core.iso(g) for g in grid], "grid_input": list(range(len(grid))), "events": events,
         "latency_us": lat_us, "delay": rng.choice([0, 0, 1]), "reward": {"cls": "RewardSimpleReturn"},
@@ -210,6 +215,8 @@ def execute(scenario):
     recs = [r for r in sim.sink.records if r.get("env") == 0]
     if any(ltd[j] >= ltd[j + 1] for j in range(len(ltd) - 1)):
         violate("chain_order", "chain members are not listed in increasing last-trading order: {}".format(syms), kind="order")
+        return {"violations": violations, "digest": core.digest(sim.log_for_digest()), "probes": probes, "faults": sim.faults,
+                "stats": sim.stats, "trace": "unordered", "nontrivial": False}
     rolls = 0
     last_lead = None
     exec_in_window = set()
